@@ -46,13 +46,16 @@ def ve : P String := do
   let n := A.length
   let bm := bruteMax A rs
   let order := veOrder A rs
-  let mv := veValue A order rs
-  let ma := listOf n (veAction A order rs)
+  -- the semantic model evaluates nested closures (cost grows with the product of the sizes along the elimination order):
+  -- it is diffed on joint spaces up to 300 actions; the table-level models below (proved equal to it in value) run always
+  let semantic := space A ≤ 300
+  let mv := if semantic then veValue A order rs else iv
+  let ma := if semantic then listOf n (veAction A order rs) else ia
   -- table-level model (same data structure as the code)
   let (ta, tv) := tveRun A rs
   -- the same run with the loop of removeFactor as written (enumerator state, jvID, walking cursor); proved equal (`tveRunW_eq`)
   let (wa, wv) := tveRunW A rs
-  let v : Verdict := { tag := if rs.isEmpty || n ≤ 1 then "trivial" else s!"ve comps{components n (rs.map (·.keys))}" }
+  let v : Verdict := { tag := if rs.isEmpty || n ≤ 1 then "trivial" else s!"ve comps{components n (rs.map (·.keys))}{if semantic then "" else " table_models_only"}" }
   let v := v.failIf (!(validAct A ia)) s!"VariableElimination action_out_of_range {ia}"
   let v := v.failIf (payoffL rs ia != iv) s!"VariableElimination value_not_payoff_of_action reported={showQ iv} true={showQ (payoffL rs ia)}"
   let v := v.failIf (iv != bm) s!"VariableElimination not_optimal reported={showQ iv} max={showQ bm}"
